@@ -198,6 +198,8 @@ pub fn subtype_check_all(
 type Trail = Vec<(Type, Type)>;
 
 fn undo(gamma: &mut Gamma, trail: &mut Trail, mark: usize) {
+    #[cfg(feature = "verif-hooks")]
+    crate::verif::probe("subtype_memo_undo");
     for pair in trail.drain(mark..) {
         gamma.remove(&pair);
     }
@@ -570,6 +572,8 @@ fn subtype_(
     t2: &Type,
     depth: &RecursionDepth,
 ) -> Result<()> {
+    #[cfg(feature = "verif-hooks")]
+    crate::verif::tick();
     let _guard = depth.guard()?;
     use TypeInner::*;
     if t1 == t2 {
